@@ -26,7 +26,7 @@ def ghosts (o : Obs) : List String :=
   [RType.lds, .rds, .cds, .eds].flatMap (fun rt =>
     ((o.cache rt).filter (fun e => !(((o.interest rt).getD []).contains e.1))).map (fun e => s!"{rtStr rt}/{e.1}"))
 
-def check (_pid : String) (j : Json) : Except String Verdict := do
+def check (pid : String) (j : Json) : Except String Verdict := do
   let cj ← j.getObjVal? "cfg"
   let cfg : Cfg := { sendAborts := Generated.sendAborts, metaInitNow := Generated.metaInitNow,
                      ndsRequired := jBoolD cj "nds" true, ns := (jStrD cj "ns" "default").toList, dom := (jStrD cj "dom" "cluster.local").toList }
@@ -58,7 +58,8 @@ def check (_pid : String) (j : Json) : Except String Verdict := do
     let o ← parseObs oj
     if o.hang then
       return { nontrivial := true, mismatch := w.r.mismatch,
-               specfail := some s!"C07.no_deadlock: {what} never returned while a response handler was between its lock sections: the operation and the receiver wait for each other's locks (every later lookup hangs behind them)" }
+               specfail := some (if pid = "C05" then s!"C05.bounded_time: {what} never returned (no value, no error, far past its fetch timeout) while a response handler was between its lock sections: the lookup and the receiver wait for each other's locks, and every later lookup hangs behind them"
+                 else s!"C07.no_deadlock: {what} never returned while a response handler was between its lock sections: the operation and the receiver wait for each other's locks (every later lookup hangs behind them)") }
     match kind with
     | "sub" =>
       let rt ← match rtOfStr (jStrD st "rt" "?") with | some t => pure t | none => throw "sub: type"
@@ -87,7 +88,7 @@ def check (_pid : String) (j : Json) : Except String Verdict := do
     w := { w with r := w.r.compare o oj uni what }
     for g in ghosts o do
       if !ghost.contains g then ghost := ghost ++ [g]
-  let spec := if ghost.isEmpty then none else
+  let spec := if ghost.isEmpty || pid = "C05" then none else
     some s!"C07.atomic_update: {",".intercalate ghost} cached but not subscribed: no sequential order of the operations reaches this state (the entry will never be updated again)"
   return { nontrivial := torn || steps.size ≥ 6, mismatch := w.r.mismatch, specfail := spec }
 
